@@ -15,6 +15,7 @@ from vlib.pdbio import Atom
 from props import c13, c14
 
 PROPERTY = "C02"
+REDUCE_KEYS = ["pdb"]
 LEVEL = "exploration"
 RULE = ("structures biased towards many determinants (balls and segments of the reference proteins with threaded "
         "ionizable residues, ligands incl. covalently coupled acid pairs, ions, multi-conformation inputs) x options "
